@@ -48,13 +48,15 @@ def step (st : C01.St) (ws : List String) : C01.St × String :=
   match ws with
   | "recv" :: k :: t :: sup :: fin :: frags =>
     (match st, hexArg k, matcher t, boolOf sup, finOf fin, frags.mapM hexArg with
-     | some ⟨I, s⟩, some k, some m, some sup, some fin, some fs =>
+     | some ⟨c, s⟩, some k, some m, some sup, some fin, some fs =>
+       let I := interp C01.route C01.isSchema c
        let e := receiveInto I Gen.maxBlobSize sup m s k ⟨fs, fin⟩
-       (some ⟨I, e.state⟩, s!"{showRes e.res} hub={e.hub.length}")
+       (some ⟨c, e.state⟩, s!"{showRes e.res} hub={e.hub.length}")
      | _, _, _, _, _, _ => (st, "bad-op"))
   | "put" :: k :: t :: sup :: par :: cl :: fin :: frags =>
     (match st, hexArg k, matcher t, boolOf sup, boolOf par, finOf fin, frags.mapM hexArg with
-     | some ⟨I, s⟩, some k, some m, some sup, some par, some fin, some fs =>
+     | some ⟨c, s⟩, some k, some m, some sup, some par, some fin, some fs =>
+       let I := interp C01.route C01.isSchema c
        let clv : Option (Option Nat) := if cl == "none" then some none else cl.toNat?.map some
        (match clv with
         | none => (st, "bad-op")
@@ -64,20 +66,21 @@ def step (st : C01.St) (ws : List String) : C01.St × String :=
           match r with
           | .accepted d =>
             (match I.step s (.recv k d) with
-             | (s', .sized _) => (some ⟨I, s'⟩, codeS)
-             | (s', _) => (some ⟨I, s'⟩, "500"))
+             | (s', .sized _) => (some ⟨c, s'⟩, codeS)
+             | (s', _) => (some ⟨c, s'⟩, "500"))
           | _ => (st, codeS))
      | _, _, _, _, _, _, _ => (st, "bad-op"))
   | "multipart" :: rest =>
     (match st, (splitBar rest).mapM parsePart with
-     | some ⟨I, s⟩, some parts =>
+     | some ⟨c, s⟩, some parts =>
+       let I := interp C01.route C01.isSchema c
        let recvd := multipart Gen.maxBlobSize parts
        -- store what was accepted, in order
        let s' := recvd.foldl (fun s e =>
          match parts.find? (fun p => p.key == e.1 && p.parses) with
          | some p => (I.step s (.recv e.1 p.src.total)).1
          | none => s) s
-       (some ⟨I, s'⟩, ("received " ++ C01.showPairs recvd).trimRight)
+       (some ⟨c, s'⟩, ("received " ++ C01.showPairs recvd).trimRight)
      | _, _ => (st, "bad-op"))
   | _ => C01.step st ws
 
